@@ -53,17 +53,17 @@ static json Project(const RSModel& m) {
 static std::unique_ptr<RSModel> Reload(const RSModel& m, JSON* doc = nullptr) { JSON j = m; if (doc) *doc = j; auto c = std::make_unique<RSModel>(); j.get_to(*c); return c; }
 
 struct Live { std::unique_ptr<RSModel> m; };
-static void StartModel(RSModel& m, bool withStruct) {
+static void StartModel(RSModel& m, bool withStruct, bool late) {
   g_uids = { 1 }; m.Emplace(CstType::base);
   if (withStruct) { g_uids = { 2 }; m.Emplace(CstType::structured, "ℬ(X1×X1)"); }
-  g_uids = { 3 }; m.Emplace(CstType::term, "X1"); g_uids = { 4 }; m.Emplace(CstType::term, "D1");
+  g_uids = { 3 }; m.Emplace(CstType::term, late ? "X2" : "X1"); g_uids = { 4 }; m.Emplace(CstType::term, "D1");
   m.Values().AddBasicElement(1, "e1"); m.Values().AddBasicElement(1, "e2");
   if (withStruct) (void)m.Values().SetStructureData(2, Factory::Set({ Factory::TupleV({ 1, 1 }), Factory::TupleV({ 1, 2 }) }));
 }
 static void Apply(RSModel& m, const json& op) {
   const std::string o = op["op"]; const EntityUID u = op["u"].get<EntityUID>();
   g_uids.clear();
-  if (o == "Emplace") { g_uids.push_back(op["fresh"].get<EntityUID>()); m.Emplace(op["k"] == "axiom" ? CstType::axiom : CstType::term, DefText(op["d"])); }
+  if (o == "Emplace") { g_uids.push_back(op["fresh"].get<EntityUID>()); m.Emplace(op["k"] == "axiom" ? CstType::axiom : op["k"] == "base" ? CstType::base : CstType::term, DefText(op["d"])); }
   else if (o == "Erase") m.Erase(u);
   else if (o == "SetExpression") m.SetExpressionFor(u, DefText(op["d"]));
   else if (o == "AddBasicElement") m.Values().AddBasicElement(u, "new");
@@ -76,7 +76,7 @@ static void Apply(RSModel& m, const json& op) {
 
 static void Handle(const json& c, vh::Report& r) {
   auto m = std::make_unique<RSModel>();
-  StartModel(*m, c["preset"] == "struct");
+  StartModel(*m, c["preset"] == "struct", c["preset"] == "late");
   std::string last;
   for (const auto& op : c["hist"]) { Apply(*m, op); last = op["op"]; }
   const json wit = { {"preset", c["preset"]}, {"hist", c["hist"]} };
